@@ -486,3 +486,60 @@ pub fn install_disk(
 pub fn uninstall_disk() {
     verif::set_disk(None);
 }
+
+// ---------------------------------------------------------------------------------------------
+// Concurrent validation of one shared parser
+// ---------------------------------------------------------------------------------------------
+
+/// Compile-time question "is T: Sync?" that does not fail to compile when the answer is no
+/// (autoref specialisation: the inherent method only exists for `T: Sync`).
+pub struct SyncProbe<T>(pub std::marker::PhantomData<T>);
+pub trait SyncProbeFallback {
+    fn is_sync(&self) -> bool {
+        false
+    }
+}
+impl<T> SyncProbeFallback for SyncProbe<T> {}
+impl<T: Sync> SyncProbe<T> {
+    pub fn is_sync(&self) -> bool {
+        true
+    }
+}
+
+struct Shared<'a>(&'a P);
+// Only constructed after `SyncProbe::<P>` answered yes (see `observe_concurrently`).
+unsafe impl<'a> Sync for Shared<'a> {}
+unsafe impl<'a> Send for Shared<'a> {}
+
+/// `k` threads call `validate()` on the same parser at the same moment (`validate` takes
+/// `&self`, so this is within the API's contract whenever the parser type is `Sync`).
+/// Returns None if the parser type is not `Sync`. This is real concurrency: the simulator does
+/// not choose the interleaving here, it only demands that every thread sees the same result.
+pub fn observe_concurrently(parser: &P, k: usize, policy: Policy, step: u64) -> Option<Vec<Outcome>> {
+    #[allow(unused_imports)]
+    use SyncProbeFallback as _;
+    if !SyncProbe::<P>(std::marker::PhantomData).is_sync() {
+        return None;
+    }
+    let shared = Shared(parser);
+    let barrier = std::sync::Barrier::new(k);
+    let outs = std::thread::scope(|s| {
+        let mut hs = Vec::new();
+        for i in 0..k {
+            let shared = &shared;
+            let barrier = &barrier;
+            hs.push(s.spawn(move || {
+                match policy {
+                    Policy::PerCaller(key) => verif::set_hash_keys(mix3(key, step, i as u64), 1),
+                    p => p.install(step.wrapping_add(i as u64)),
+                }
+                barrier.wait();
+                observe(shared.0)
+            }));
+        }
+        hs.into_iter()
+            .map(|h| h.join().unwrap_or_else(|p| Outcome::Panic(panic_message(p))))
+            .collect::<Vec<_>>()
+    });
+    Some(outs)
+}
